@@ -150,6 +150,8 @@ end
 
 /-- Rendering of one stored entry by `node.elems`. `host` is the un-reversed accumulated suffix. -/
 def renderEntry (scheme host : Bytes) (c : Int) : Bytes :=
+  -- only IPv6 hosts contain colons; they are stored without brackets
+  let host := if host.contains Facts.origins_hostPortSep then [91] ++ host ++ [93] else host
   let wild := c < 0
   let port := if wild then c + portOffset else c
   let base := scheme ++ Facts.origins_schemeHostSep ++ (if wild then Facts.origins_subdomainWildcard else []) ++ host
